@@ -896,6 +896,8 @@ type c12Scn struct {
 	price   string // "all" (every feed active) | "none" (every feed off) | comma list of the assets whose feed is off
 	missing bool   // off = the TWA record does not exist at all (instead of IsPriceActive=false)
 	days    int    // time passed since the world was built
+	recs    string // "" : a control that is off has NO record at all; "false": it has a record with the flag false
+	                // (KillSwitchParams{BreakerEnable:false}, ESMStatus{Status:false}); "otherapp": the controls are ON for another app
 }
 
 var c12AssetNames = []string{"a1", "a2", "a3", "a4", "c1", "c2", "c3", "c4"}
@@ -942,8 +944,22 @@ func (w *c12World) stage(scn c12Scn, c c12Case) sdk.Context {
 	if c.prep != nil {
 		c.prep(w, ctx)
 	}
-	if scn.brk {
+	if scn.brk && scn.recs == "viamsg" {
+		// the breaker is switched on the way the chain does it: the admin's real MsgKillSwitch
+		w.mustDeliver(ctx, &esmtypes.MsgKillRequest{From: w.admin.String(), KillSwitchParams: &esmtypes.KillSwitchParams{AppId: appID, BreakerEnable: true}}, "MsgKillSwitch")
+	} else if scn.brk {
 		w.must(w.app.EsmKeeper.SetKillSwitchData(ctx, esmtypes.KillSwitchParams{AppId: appID, BreakerEnable: true}), "breaker")
+	} else if scn.recs == "false" {
+		// the record a disable after an enable leaves behind
+		w.must(w.app.EsmKeeper.SetKillSwitchData(ctx, esmtypes.KillSwitchParams{AppId: appID, BreakerEnable: false}), "breaker record, flag false")
+	}
+	if scn.esm == "none" && scn.recs == "false" {
+		w.app.EsmKeeper.SetESMStatus(ctx, esmtypes.ESMStatus{AppId: appID, Executor: w.B.String(), Status: false, StartTime: now.Add(-time.Hour), EndTime: now.Add(-time.Minute)})
+	}
+	if scn.recs == "otherapp" {
+		other := w.appGov
+		w.must(w.app.EsmKeeper.SetKillSwitchData(ctx, esmtypes.KillSwitchParams{AppId: other, BreakerEnable: true}), "breaker of another app")
+		w.app.EsmKeeper.SetESMStatus(ctx, esmtypes.ESMStatus{AppId: other, Executor: w.B.String(), Status: true, StartTime: now.Add(-3 * time.Hour), EndTime: now.Add(-2 * time.Hour)})
 	}
 	switch scn.esm {
 	case "in", "after":
@@ -1020,8 +1036,60 @@ func (w *c12World) appOf(c c12Case) uint64 {
 		return w.appVault
 	case "lend":
 		return w.appLend
+	case "solo":
+		return w.soloApp()
 	}
 	return w.appLiq
+}
+
+// soloApp: the id the next app will get (c14SoloPrep creates it on the case's branch: an app with ONE extended pair and one
+// vault, which is what rewards.ExternalRewardsVault accepts)
+func (w *c12World) soloApp() uint64 {
+	apps, _ := w.app.AssetKeeper.GetApps(w.ctx)
+	return uint64(len(apps)) + 1
+}
+
+func (w *c12World) soloExtPair() uint64 {
+	eps, _ := w.app.AssetKeeper.GetPairsVaults(w.ctx)
+	return uint64(len(eps)) + 1
+}
+
+func c14SoloPrep(w *c12World, ctx sdk.Context) {
+	w.must(w.app.AssetKeeper.AddAppRecords(ctx, assettypes.AppData{Name: "soloapp", ShortName: "solo", MinGovDeposit: sdk.NewInt(0), GenesisToken: []assettypes.MintGenesisToken{}}), "solo app")
+	w.must(w.app.AssetKeeper.WasmAddExtendedPairsVaultRecords(ctx, &bindings.MsgAddExtendedPairsVault{
+		AppID: w.soloApp(), PairID: 1, StabilityFee: sdk.NewDecWithPrec(2, 2), ClosingFee: sdk.NewDec(0),
+		LiquidationPenalty: sdk.NewDecWithPrec(15, 2), DrawDownFee: sdk.NewDecWithPrec(1, 2), IsVaultActive: true,
+		DebtCeiling: sdk.NewInt(1000000000000000000), DebtFloor: sdk.NewInt(100000000), IsStableMintVault: false,
+		MinCr: sdk.NewDecWithPrec(23, 1), PairName: "SOLO-A", AssetOutOraclePrice: true, AssetOutPrice: 1000000, MinUsdValueLeft: 1000000,
+	}), "solo ext pair")
+	w.mustDeliver(ctx, &vaulttypes.MsgCreateRequest{From: w.D.String(), AppId: w.soloApp(), ExtendedPairVaultId: w.soloExtPair(), AmountIn: sdk.NewInt(3000000000), AmountOut: sdk.NewInt(400000000)}, "solo vault")
+}
+
+// c14ExtraCatalogue: message shapes that the regenerated table shows breaker- / ESM-guarded but that carry no position of the
+// C12 kinds (driven by TestC14 only; the driver's end-of-run check demands every guarded handler of the table to be driven)
+func c14ExtraCatalogue() []c12Case {
+	rew := coin("uasset3", 1000000)
+	return []c12Case{
+		{"rewards.ExternalRewardsLockers", "B", false, false, "vault", "", func(w *c12World, s sdk.AccAddress) sdk.Msg {
+			return &rewardstypes.ActivateExternalRewardsLockers{AppMappingId: w.appVault, AssetId: w.a2, TotalRewards: rew, DurationDays: 3, Depositor: s.String(), MinLockupTimeSeconds: 10}
+		}, nil, ""},
+		{"rewards.ExternalRewardsVault", "B", false, false, "solo", "", func(w *c12World, s sdk.AccAddress) sdk.Msg {
+			return &rewardstypes.ActivateExternalRewardsVault{AppMappingId: w.soloApp(), ExtendedPairId: w.soloExtPair(), TotalRewards: rew, DurationDays: 3, Depositor: s.String(), MinLockupTimeSeconds: 10}
+		}, c14SoloPrep, ""},
+		{"rewards.ExternalRewardsLend", "B", false, false, "lend", "", func(w *c12World, s sdk.AccAddress) sdk.Msg {
+			return &rewardstypes.ActivateExternalRewardsLend{AppMappingId: w.appLend, CPoolId: w.lendPool, AssetId: []uint64{w.a1, w.a2}, CSwapAppId: w.appLiq, CSwapMinLockAmount: 100,
+				TotalRewards: rew, MasterPoolId: int64(w.liqPool), DurationDays: 3, MinLockupTimeSeconds: 10, Depositor: s.String()}
+		}, nil, ""},
+		{"rewards.ExternalRewardsStableMint", "B", false, false, "vault", "", func(w *c12World, s sdk.AccAddress) sdk.Msg {
+			return &rewardstypes.ActivateExternalRewardsStableMint{AppId: w.appVault, CswapAppId: w.appLiq, CommodoAppId: w.appLend, TotalRewards: rew, DurationDays: 3, Depositor: s.String(), AcceptedBlockHeight: 10}
+		}, nil, ""},
+		{"esm.ExecuteESM", "B", false, false, "vault", "", func(w *c12World, s sdk.AccAddress) sdk.Msg {
+			return &esmtypes.MsgExecuteESM{AppId: w.appVault, Depositor: s.String()}
+		}, func(w *c12World, ctx sdk.Context) {
+			w.app.EsmKeeper.SetESMTriggerParams(ctx, esmtypes.ESMTriggerParams{AppId: w.appVault, TargetValue: sdk.NewCoin("ugov", sdk.NewInt(100)), CoolOffPeriod: 3600})
+			w.app.EsmKeeper.SetCurrentDepositStats(ctx, esmtypes.CurrentDepositStats{AppId: w.appVault, Balance: sdk.NewCoin("ugov", sdk.NewInt(100))})
+		}, ""},
+	}
 }
 
 func (w *c12World) emit(tr *Trace, c c12Case, scnName string, signer string, admin bool, scn c12Scn, base bool, r c12Result) {
@@ -1089,9 +1157,11 @@ func TestC12(t *testing.T) {
 	c12Consistency(t, tr, w)
 	c12KillSwitch(t, tr, w)
 	c12Wasm(t, tr, w)
+	c12Entries(t, tr, w)
 	if thorough() {
 		c12DeliverTx(t, tr)
 	}
+	tr.Line("grd.end", "C12")
 }
 
 // c12DeliverTx (thorough tier): the same position-naming messages, SIGNED and pushed through the real BaseApp.DeliverTx
@@ -1800,7 +1870,7 @@ func TestC14(t *testing.T) {
 	defer tr.Close(t)
 	c12Seed(tr)
 	w := c12Build(t)
-	cat := c12Catalogue()
+	cat := append(c12Catalogue(), c14ExtraCatalogue()...)
 	w.computeNeeds(cat, tr)
 	prices := []string{"all", "none"}
 	days := []int{0}
@@ -1829,6 +1899,33 @@ func TestC14(t *testing.T) {
 			}
 		}
 	}
+	// control RECORD states: a control that is off may have no record at all (the default above) or a record whose flag is false;
+	// the controls of ANOTHER app must not matter. (Seeded changes gated a breaker test by the ESM record's `found`.)
+	for _, c := range cat {
+		for _, scn := range []c12Scn{
+			{esm: "none", price: "all", recs: "false"},             // both records present, both flags false: must succeed
+			{brk: true, esm: "none", price: "all", recs: "false"},  // breaker on, ESM record present with Status=false
+			{esm: "in", price: "all", recs: "false"},               // kill-switch record present with BreakerEnable=false, ESM executed
+			{esm: "none", price: "all", recs: "otherapp"},          // another app's breaker on and ESM executed: must succeed
+			{brk: true, esm: "in", price: "all", recs: "otherapp"}, // breaker on + ESM executed (+ another app's too)
+			{brk: true, esm: "none", price: "all", recs: "viamsg"}, // breaker switched on by the admin's real MsgKillSwitch
+		} {
+			ctx := w.stage(scn, c)
+			before := w.dump(ctx)
+			r := w.deliver(ctx, before, w.victimProj(ctx), c.mk(w, w.actor(c.owner)))
+			base := !scn.brk && scn.esm == "none"
+			if c.handler == "esm.ExecuteESM" && scn.recs == "false" {
+				base = false // keeper.go:146-149 refuses when an ESM status RECORD exists, whatever its flag (no message creates a false one)
+			}
+			w.emit(tr, c, fmt.Sprintf("rec/%s/brk%s/esm-%s", scn.recs, c12b01(scn.brk), scn.esm), c.owner, false, scn, base, r)
+			tr.Count("rec_cells")
+			if base && r.outcome != "ok" {
+				t.Logf("record-state baseline %s (%s) failed: %s", c.handler, scn.recs, r.errText)
+			}
+		}
+	}
+	// what it takes to trigger the shutdown / switch the breaker: DepositESM / ExecuteESM / MsgKillSwitch preconditions (shared with C12)
+	c12Preconditions(t, tr, w)
 	c14PriceSubsets(t, tr, w, cat)
 	c14TimeWindows(t, tr, w)
 	c14Units(t, tr, w)
@@ -1836,6 +1933,9 @@ func TestC14(t *testing.T) {
 	if thorough() {
 		// the same control settings through the real DeliverTx (baseapp's own message cache) for every handler the property names
 		for ci, c := range cat {
+			if c.app == "solo" {
+				continue // its staging computes ids relative to the shared world; the DeliverTx cases build a world of their own
+			}
 			scns := []c12Scn{{brk: true, esm: "none", price: "all"}}
 			if c.app == "vault" {
 				scns = append(scns, c12Scn{esm: "in", price: "all"}, c12Scn{esm: "after", price: "all"})
@@ -1850,6 +1950,7 @@ func TestC14(t *testing.T) {
 			}
 		}
 	}
+	tr.Line("grd.end", "C14")
 }
 
 // c14PriceSubsets: "for every subset of assets whose price feed is inactive". For every message shape whose handler reads
